@@ -1,2 +1,15 @@
+"""C04 additional structural rules: carry chains of the multi-limb adders used by the hashes."""
+from rules import driver, r_carry
+
+
 def run(rep, specs, us, tier):
-    pass
+    n = 0
+    for (h, lab, s) in specs:
+        u = us[s.label]
+        for fn in u.function_list:
+            if fn.relfile().startswith("include/crypto/hash/") and not fn.name.endswith("self_test"):
+                k = r_carry.check(rep, fn)
+                if k:
+                    rep.functions.add(fn.name)
+                    n += k
+    rep.floor("carry stores in hash headers", n, 1)
